@@ -87,8 +87,11 @@ def judge_explore(xl, xr, res, prop_words):
             final = ae.field(xobs, "final")
             case = "(case %s atpexplore (%s %s))" % (cid, session, choices)
             wtxt = ae.field(xobs, "wrong")
-            why = direct_final(session, final) or ("an Execute returned twice" if double else None) or \
-                (ae.split_top(wtxt)[2].strip('"') if wtxt else "a call got a result that is not its own")
+            wmsg = ae.split_top(wtxt)[2].strip('"') if wtxt and ae.split_top(wtxt)[1] == "1" else None
+            why = direct_final(session, final) or ("an Execute returned twice" if double else None) or wmsg or \
+                "a call got a result that is not its own"
+            if wmsg and wmsg not in why:
+                why = wmsg + "; in the same trial: " + why
             res["violations"].append(("atpexplore", case, final, "-", why + " - found by schedule exploration of the real client "
                                       "(%s); replay = the list of scheduling choices" % prop_words))
         elif first is not None:
